@@ -41,6 +41,10 @@ def cases(tier, seed):
     out += [{"tokens": kk, "pathlen": 5, "shard": "%d/%d" % (i, 16), "alpha": "ctl", "first": "SLASH"} for i in range(16)]
     # ... and those whose literal prefix reaches into a directory named with the non-ASCII letter
     out += [{"tokens": kk + 2, "pathlen": 5, "shard": "%d/%d" % (i, 4), "alpha": "ctl", "first": "SLASH,ż,SLASH"} for i in range(4)]
+    # bracket expressions whose members mean something inside a character class of the regex syntax (&& ~~ [ ^),
+    # ranges and wildcards as members: "matches one of the characters or character ranges given in the brackets"
+    kc = 2 if tier == "quick" else 3
+    out += [{"tokens": kc, "pathlen": 4, "shard": "%d/%d" % (i, 8), "alpha": "cls"} for i in range(8)]
     # two --path patterns at once
     out += [{"pairs": True, "tokens": 2, "pathlen": 3 if tier == "quick" else 4, "shard": "%d/%d" % (i, 32)} for i in range(32)]
     # command-line cross-check: --name / --path / --exclude x -i on the real binary over a fixed tree
